@@ -29,12 +29,19 @@ Theorem C02_separated_by_bounded :
     fl = true /\ lo <= length items /\ le_opt (length items) hi.
 Proof. exact sep_count_spec. Qed.
 
-(* the same bounds apply when the count comes from configure() *)
+(* the same bounds apply when they come from configure(): what the closure sets overrides the static
+   bound, what it leaves alone falls back to it, and the iteration is that of the static parser *)
 Theorem C02_configure_is_static :
-  forall toks spn run a lo hi n ctx fuel c lim sacc sacce p r,
-    sdrive toks spn run fuel (IRepCfg a lo hi) ctx (SCfg c n (Some n)) lim sacc sacce p r
-    = sdrive toks spn run fuel (IRep a n (Some n)) ctx (SCount c) lim sacc sacce p r.
+  forall toks spn run a lo hi ck clo chi ctx fuel c lim sacc sacce p r,
+    sdrive toks spn run fuel (IRepCfg a lo hi ck) ctx (SCfg c clo chi) lim sacc sacce p r
+    = sdrive toks spn run fuel (IRep a clo chi) ctx (SCount c) lim sacc sacce p r.
 Proof. exact configure_is_static. Qed.
+
+Theorem C02_configured_bounds :
+  forall a lo hi ck ctx,
+    mk_iter (IRepCfg a lo hi ck) ctx
+    = SCfg 0 (cfg_lo ck lo (val_count (cval ctx))) (cfg_hi ck hi (val_count (cval ctx))).
+Proof. exact configured_bounds. Qed.
 
 (* enumerate sees the items in input order, numbered from 0 *)
 Theorem C02_enumerate_indices :
@@ -70,4 +77,5 @@ Print Assumptions C02_machine_iterates_as_specified.
 Print Assumptions C02_repeated_greedy_possessive_bounded.
 Print Assumptions C02_separated_by_bounded.
 Print Assumptions C02_configure_is_static.
+Print Assumptions C02_configured_bounds.
 Print Assumptions C02_enumerate_indices.
